@@ -8,7 +8,7 @@ from .core import hexs
 THEOREMS = ["C06_sizes_bounded", "C06_to_str_total", "C06_fuel_is_linear", "C06_parse_never_panics", "C06_parse_tree_wellformed", "C06_error_position", "C06_parse_total", "C06_analysis_never_panics"]
 VOCAB = ["a", "é", "€", "𝄞", "\\", "(", ")", "[", "]", "{", "}", "|", "*", "+", "?", ".", "^", "$", "#", "-", ",", ":", "<", ">", "=", "!", "'", " ", "\n",
          "0", "1", "9", "18446744073709551615", "99999999999999999999", "9223372036854775808",
-         "(?", "(?:", "(?=", "(?!", "(?<=", "(?<!", "(?>", "(?<n>", "(?P<n>", "(?<", "(?P<", "(?<>", "(?P<1>", "(?(1)|)", "(?(a)|)", "(?i:a", "(?P=", "(?P>", "(?P=n)", "(?P>n)", "(?(", "(?(1)", "(?#", "(?i)", "(?x)", "(?-", "(?i:", "(?u", "(?-u)",
+         "(?", "(?:", "(?=", "(?!", "(?<=", "(?<!", "(?>", "(?<n>", "(?P<n>", "(?<", "(?P<", "(?<>", "(?P<1>", "(?(1)|)", "(?(a)|)", "(?i:a", "(?P=", "(?P>", "(?P=n)", "(?P>n)", "(?(", "(?(1)", "(?#", "(?#c)", "(?#)", " #x", "{(?#c)", "(?i(?#c)", "(?x ", "(?x#", "(?i)", "(?x)", "(?-", "(?i:", "(?u", "(?-u)",
          "\\1", "\\k<n>", "\\k<-1>", "\\k<", "\\k'n'", "\\g<1>", "\\g", "\\x", "\\x{", "\\x{41}", "\\x{110000}", "\\x{100000000}", "\\u00e9", "\\U0001F600", "\\p{L}", "\\p{", "\\pL", "\\b", "\\b{", "\\B", "\\B{", "\\<", "\\>", "\\n", "\\t", "\\K", "\\G", "\\Z", "\\h", "\\e", "\\q", "\\é",
          "{2}", "{2,3}", "{,3}", "{2,", "{ 2 }", "a{18446744073709551615}", "[a-z]", "[^", "[]", "[[:alpha:]]", "[\\d]", "[a&&b]"]
 
